@@ -38,6 +38,12 @@ type Stream struct {
 	ReadBurst   int `json:"read_burst,omitempty"`
 	ReadPauseUs int `json:"read_pause_us,omitempty"`
 	Rcvbuf      int `json:"rcvbuf,omitempty"`
+	// reconnecting destination ("dest"): Count stamped hub messages of Blk bytes on a stream with a destination
+	// rule; the destination (a websocket server of the harness) ends the session after CutMin..CutMax messages
+	// (close frame, or the connection just dropped when Abrupt) and is dialled again by rwc/reconws
+	CutMin int  `json:"cut_min,omitempty"`
+	CutMax int  `json:"cut_max,omitempty"`
+	Abrupt bool `json:"abrupt,omitempty"`
 	Obs       *Observed  `json:"obs,omitempty"`
 }
 
@@ -67,6 +73,7 @@ type Observed struct {
 	Posted    int      `json:"posted"`
 	Frames    [][]byte `json:"frames,omitempty"`    // wsout: the websocket messages the slow client received
 	FrameLens []int    `json:"frame_lens,omitempty"`
+	Conns     []int    `json:"conns,omitempty"`     // dest: for every message received (Frames), the number of the connection it came over
 	TapLens   []int    `json:"tap_lens,omitempty"` // lengths of the hand-offs (kept when the bytes are dropped from a report)
 }
 
@@ -116,7 +123,7 @@ func wsoutIndex(piece []byte) int {
 }
 
 func (s Stream) total() int {
-	if s.Kind == "wsout" {
+	if s.Kind == "wsout" || s.Kind == "dest" {
 		return s.Blk * s.Count
 	}
 	t := 0
@@ -201,9 +208,36 @@ func (s Stream) coqWsOut() string {
 	return lib.App("CW", lib.N(s.Seed), lib.N(uint64(s.Blk)), lib.List(evs), lib.List(frames))
 }
 
+func (s Stream) coqDest() string {
+	o := s.Obs
+	evs := []string{}
+	next := 0
+	recv := []string{}
+	for _, f := range o.Frames {
+		k := wsoutIndex(f)
+		if k < next || k >= s.Count { // repeated, backwards or not a hub message: the model cannot follow; the oracle reports it
+			recv = append(recv, obsbLimit(f, 256))
+			continue
+		}
+		if k > next {
+			evs = append(evs, lib.App("DMiss", lib.Nat(k-next)))
+		}
+		evs = append(evs, "DOffer", "DSend")
+		next = k + 1
+		recv = append(recv, obsbLimit(f, 256))
+	}
+	if s.Count > next {
+		evs = append(evs, lib.App("DMiss", lib.Nat(s.Count-next)))
+	}
+	return lib.App("CD", lib.N(s.Seed), lib.N(uint64(s.Blk)), lib.List(evs), lib.List(recv))
+}
+
 func (s Stream) coq() string {
 	if s.Kind == "wsout" {
 		return s.coqWsOut()
+	}
+	if s.Kind == "dest" {
+		return s.coqDest()
 	}
 	o := s.Obs
 	evs := []string{}
@@ -248,6 +282,10 @@ func (s Stream) describe() string {
 		return fmt.Sprintf("wsout stream %q seed=%d: %d hub messages of %d bytes towards a websocket client of /ws/<feed> that reads %d messages then pauses %d us (SO_RCVBUF %d)",
 			s.Name, s.Seed, s.Count, s.Blk, s.ReadBurst, s.ReadPauseUs, s.Rcvbuf)
 	}
+	if s.Kind == "dest" {
+		return fmt.Sprintf("dest stream %q seed=%d: %d hub messages of %d bytes on a stream whose destination ends the session after every %d-%d messages (abrupt=%v) and is dialled again by rwc/reconws",
+			s.Name, s.Seed, s.Count, s.Blk, s.CutMin, s.CutMax, s.Abrupt)
+	}
 	fmt.Fprintf(&sb, "%s stream %q seed=%d max_frame=%d bursts=", s.Kind, s.Name, s.Seed, s.MaxFrame)
 	for i, b := range s.Bursts {
 		if i > 0 {
@@ -263,6 +301,13 @@ func (s Stream) describe() string {
 
 func genStream(r *lib.Rng, kind string, i int) Stream {
 	s := Stream{Kind: kind, Name: fmt.Sprintf("%s%d", kind, i), Seed: uint64(r.Intn(1 << 20))}
+	if kind == "dest" {
+		s.Blk = []int{64, 256, 1024}[r.Intn(3)]
+		s.Count = r.Range(300, 900)
+		s.CutMin, s.CutMax = 3, 8
+		s.Abrupt = r.Chance(1, 3)
+		return s
+	}
 	if kind == "wsout" {
 		s.Blk = []int{4096, 4096, 1024, 8192}[r.Intn(4)]
 		s.Count = r.Range(600, 1500)
@@ -349,6 +394,9 @@ func corpus(tier string) []Stream {
 			Consumers: []ConsSpec{{Cap: 2, Policy: "queue", Hold: 1}}},
 		// hub -> slow local websocket client: thousands of 4 kB messages, far more than it reads
 		{Kind: "wsout", Name: "wsout-slow-client", Seed: 69, Blk: 4096, Count: 3000, ReadBurst: 8, ReadPauseUs: 800, Rcvbuf: 16384},
+		// feed -> hub -> rwc -> reconws -> a destination that ends the session every few messages
+		{Kind: "dest", Name: "dest-cuts-close-frame", Seed: 71, Blk: 256, Count: 1200, CutMin: 3, CutMax: 8},
+		{Kind: "dest", Name: "dest-cuts-abrupt", Seed: 72, Blk: 256, Count: 1200, CutMin: 3, CutMax: 8, Abrupt: true},
 		{Kind: "wsout", Name: "wsout-slower-client", Seed: 70, Blk: 4096, Count: 3000, ReadBurst: 30, ReadPauseUs: 300, Rcvbuf: 65536},
 	}
 	return out
